@@ -298,6 +298,7 @@ def run(ctx):
     with Pool(seeds=[0], init="engines.explore:worker_init") as pool:
         routs = pool.map("engines.c20:eval_repair", REPAIR_SCENARIOS)
         touts = pool.map("engines.c20:eval_repair_twostep", [{"order": "AB"}, {"order": "BA"}])
+        touts += pool.map("engines.c20:eval_repair_output", [{}])
     n, sigs = 0, set()
     for d, o in zip(descs, outs):
         n += o["n"]
@@ -310,7 +311,7 @@ def run(ctx):
         trans += o["transitions"]
         for b in o["bad"]:
             res.violation(f"{b['kind']}", f"scenario {sc}: after `deprecated {b.get('cmd')}`: {json.dumps(b, default=str)[:900]}", {"part": "repair", "scenario": sc, "bad": b})
-    for sc2, o in zip(("AB", "BA"), touts):
+    for sc2, o in zip(("AB", "BA", "through-output"), touts):
         states += o["states"]
         trans += o["transitions"]
         for b in o["bad"]:
@@ -323,7 +324,7 @@ def run(ctx):
                 "the description with the replacement classes; (b) explicit-state BFS over workspaces written by the real scheduler (virtual world) "
                 "with the class not yet deprecated, transitions = real `deprecated list`, `--fix`, `--fix --cleanup` commands (click CliRunner) until no "
                 "new canonical jobs/ tree appears; on every state: job data preserved; after --fix: jobs/<new type>/<new id> resolves to the old files and "
-                "re-submitting the replacement in a virtual experiment launches nothing; distinct_nontrivial = signatures + workspace states",
+                "re-submitting the replacement in a virtual experiment launches nothing; also a two-step deprecation (two classes, repairs in between, both orders) and a job that depends on the deprecated class only through the output of an upstream task; distinct_nontrivial = signatures + workspace states",
         "samples": clip_samples([descs[3], REPAIR_SCENARIOS[1], (routs[1].get("state_list") or [None])[-1]]),
         "exhaustive": not capped, "descriptions": len(descs), "repair_states": states, "repair_transitions": trans,
     }
@@ -445,3 +446,113 @@ def eval_repair_twostep(item):
             D.set_deprecated(c, True)
         shutil.rmtree(base, ignore_errors=True)
     return out
+
+
+def eval_repair_output(item):
+    """Two stored jobs, Prep(p=OldA) and Use(data=<output of Prep>): the identifier of Use changes with the deprecation of OldA although
+    Use itself holds no deprecated configuration (the hash follows the task of a task output).  BFS over the workspace states reached by
+    the three CLI commands once OldA is deprecated; after a --fix every stored job must be reachable under its new identifier and a
+    re-submission of the plan must launch nothing."""
+    import universe.dep as D
+    from . import vworld as V, vxpm as X
+    X.install()
+    out = {"states": 0, "transitions": 0, "bad": []}
+    base = Path(tempfile.mkdtemp(prefix="c20o", dir=os.environ.get("VERIF_SCRATCH", "/dev/shm")))
+
+    def plan():
+        prep = D.Prep(x=1, p=D.OldA(v=1))
+        return prep, (lambda o: D.Use(x=2, data=o))
+
+    def run(ws, name):
+        rec = {}
+
+        def script(wd, result, proc):
+            from experimaestro import experiment
+            with experiment(ws, name, launcher=X.make_launcher(ws)) as xp:
+                prep, mk = plan()
+                o = prep.submit()
+                use = mk(o)
+                use.submit()
+                rec["prep"] = str(prep.__xpm__.job.relpath)
+                rec["use"] = str(use.__xpm__.job.relpath)
+        r, hub, world = V.run_world([script], root_override=ws)
+        return r, rec
+
+    def current_ids():
+        """identifiers the current program gives to the two jobs (DRY_RUN-like: computed without an experiment)"""
+        from experimaestro.scheduler.workspace import RunMode
+        prep, mk = plan()
+        with Gr_quiet():
+            o = prep.submit(run_mode=RunMode.DRY_RUN)
+            use = mk(o)
+            use.submit(run_mode=RunMode.DRY_RUN)
+        return {"prep": ("dep.prep", prep.__xpm__.identifier.all.hex()), "use": ("dep.use", use.__xpm__.identifier.all.hex())}
+
+    try:
+        D.set_deprecated(D.OldA, False)
+        ws0 = base / "s0"
+        ws0.mkdir()
+        r, rec0 = run(ws0, "xp_old")
+        if r.get("hung") or r.get("main_exc") or "use" not in rec0:
+            out["bad"].append({"kind": "setup-failed", "detail": str(r.get("main_exc"))[:300]})
+            return out
+        orig = {k: sorted(f.name for f in (ws0 / "jobs" / rel).iterdir() if not f.name.startswith(".")) for k, rel in rec0.items()}
+        D.set_deprecated(D.OldA, True)
+        ids = current_ids()
+        if item.get("sanity", True) and ids["use"][1] == rec0["use"].split("/")[-1]:
+            out["bad"].append({"kind": "setup-vacuous", "detail": "the identifier of the dependent job does not change with the deprecation"})
+        seen = {json.dumps(tree_state(ws0), sort_keys=True): True}
+        frontier = [ws0]
+        n = 0
+        while frontier:
+            nxt = []
+            for ws in frontier:
+                for cmd in (["list"], ["list", "--fix"], ["list", "--fix", "--cleanup"]):
+                    n += 1
+                    dst = base / f"s{n}"
+                    shutil.copytree(ws, dst, symlinks=True)
+                    relink(dst, ws)
+                    output, err = cli(["deprecated"] + cmd + [str(dst)])
+                    out["transitions"] += 1
+                    st = tree_state(dst)
+                    label = " ".join(cmd)
+                    if err:
+                        out["bad"].append({"kind": "command-raises", "cmd": label, "error": err[:300]})
+                    for which, files in orig.items():
+                        data = [f for f in files if not f.endswith((".json", ".tmp"))]
+                        if not [k for k, v in st.items() if "files" in v and set(data) <= set(v["files"]) and k.startswith(ids[which][0] + "/")]:
+                            out["bad"].append({"kind": f"job-data-lost:{which}", "cmd": label, "state": st})
+                    if "--fix" in cmd:
+                        ok = True
+                        for which, (tname, ident) in ids.items():
+                            data = [f for f in orig[which] if not f.endswith((".json", ".tmp"))]
+                            p = dst / "jobs" / tname / ident
+                            if not (p.exists() and p.is_dir() and set(data) <= {f.name for f in p.iterdir()}):
+                                ok = False
+                                out["bad"].append({"kind": f"old-result-not-reachable:through-output:{which}", "cmd": label, "expected": f"{tname}/{ident[:8]}", "state": st})
+                        if ok:
+                            tmp = base / f"s{n}_re"
+                            shutil.copytree(dst, tmp, symlinks=True)
+                            relink(tmp, dst)
+                            r2, _ = run(tmp, "xp_new")
+                            launched = sorted({e[1] for e in r2["events"] if e[0] == "launch"})
+                            if launched:
+                                out["bad"].append({"kind": "relaunched-after-fix:through-output", "cmd": label, "launched": launched, "state": st})
+                            shutil.rmtree(tmp, ignore_errors=True)
+                    key = json.dumps(st, sort_keys=True)
+                    if key not in seen:
+                        seen[key] = True
+                        nxt.append(dst)
+                    else:
+                        shutil.rmtree(dst, ignore_errors=True)
+            frontier = nxt
+        out["states"] = len(seen)
+    finally:
+        D.set_deprecated(D.OldA, True)
+        shutil.rmtree(base, ignore_errors=True)
+    return out
+
+
+def Gr_quiet():
+    from . import graphs as Gr
+    return Gr.quiet()
